@@ -239,6 +239,16 @@ func (c *Core) forward(bp BundleDescriptor) {
 		}
 	}
 
+	// Unknown blocks requesting their removal are only removed from the in-memory bundle on reception. A bundle
+	// which is loaded from the store again, e.g., for a retry, still carries them.
+	for i := len(bp.MustBundle().CanonicalBlocks) - 1; i >= 0; i-- {
+		cb := &bp.MustBundle().CanonicalBlocks[i]
+		if !bpv7.GetExtensionBlockManager().IsKnown(cb.TypeCode()) && cb.BlockControlFlags.Has(bpv7.RemoveBlock) {
+			bp.MustBundle().CanonicalBlocks = append(
+				bp.MustBundle().CanonicalBlocks[:i], bp.MustBundle().CanonicalBlocks[i+1:]...)
+		}
+	}
+
 	if pnBlock, err := bp.MustBundle().ExtensionBlock(bpv7.ExtBlockTypePreviousNodeBlock); err == nil {
 		// Replace the PreviousNodeBlock
 		prevEid := pnBlock.Value.(*bpv7.PreviousNodeBlock).Endpoint()
